@@ -981,6 +981,8 @@ class ManifestRecursiveLoader:
                         if e.tag != 'IGNORE':
                             out[fullpath][1].checksums.update(
                                 e.checksums)
+                            # the entry we keep has changed as well
+                            self.updated_manifests.add(out[fullpath][0])
                         # and drop the duplicate
                         entries_to_remove.append(e)
                     else:
